@@ -49,10 +49,11 @@ type Call struct {
 type Case struct {
 	// Names: addresses of the pages ("" = /page<i>)
 	Names   []string `json:"names,omitempty"`
-	Ordered bool   `json:"ordered"`
-	Pages   []Page `json:"pages"` // page 0 is the collection itself
-	Start   uint   `json:"start"`
-	Calls   []Call `json:"calls"`
+	Ordered bool     `json:"ordered"`
+	Pages   []Page   `json:"pages"` // page 0 is the collection itself
+	Start   uint     `json:"start"`
+	Calls   []Call   `json:"calls"`
+	Again   bool     `json:"again,omitempty"` // the whole program is run a second time on the same collection object
 }
 
 func (c Case) kind(i int) string {
@@ -101,6 +102,9 @@ func (c Case) doc(prefix string, i int) map[string]any {
 			list := make([]any, len(p.Items))
 			for k, it := range p.Items {
 				list[k] = it
+				if it == nullTag {
+					list[k] = nil // a null placeholder, as some servers leave for deleted entries: an entry like any other
+				}
 			}
 			m[c.itemsKey()] = list
 		}
@@ -162,9 +166,9 @@ func (c Case) install(prefix string) {
 // ------------------------------------------------------------------ reference model
 
 type model struct {
-	c      Case
-	page   int  // current page, -1 = ended
-	off    uint // offset within it
+	c    Case
+	page int  // current page, -1 = ended
+	off  uint // offset within it
 }
 
 // next page index reachable from page i, or (-1,false) at the end, or (-1,true) when the edge is broken
@@ -231,6 +235,9 @@ func tagOf(t pub.Tangible) (string, bool) {
 	}
 	return "", false
 }
+
+// nullTag: how construct shows a JSON null entry
+const nullTag = "?<nil>"
 
 func construct(input any, source *url.URL) pub.Tangible {
 	if s, ok := input.(string); ok {
@@ -320,68 +327,80 @@ func check(c Case) vrep.Result {
 		}
 		coll = got
 	}
-	m := &model{c: c, page: 0, off: c.Start}
-	off := c.Start
+	// Again: the same collection object is walked a second time from its start, as happens whenever a page of the
+	// interface is opened again (Children() hands out the same collection): what the first walk did to shared
+	// storage must not show (seed C10-L)
+	root := coll
+	rounds := 1
+	if c.Again {
+		rounds = 2
+		classes = append(classes, "walked-twice")
+	}
 	crossed := false
-	for i, call := range c.Calls {
-		if coll == nil {
-			break
-		}
-		sim.Quiesce()
-		before := len(sim.Log())
-		pageBefore := m.page
-		items, cont, nextOff := coll.Harvest(call.N, off)
-		sim.Quiesce()
-		requests := len(sim.Log()) - before
-		wantTags, wantFailure := m.harvest(call.N)
-		if m.page != pageBefore && len(wantTags) > 0 {
-			crossed = true
-		}
-		what := fmt.Sprintf("call %d: Harvest(%d, %d)", i, call.N, off)
-		gotTags := []string{}
-		failures := 0
-		for k, it := range items {
-			if tag, ok := tagOf(it); ok {
+	for round := 0; round < rounds; round++ {
+		coll = root
+		m := &model{c: c, page: 0, off: c.Start}
+		off := c.Start
+		for i, call := range c.Calls {
+			if coll == nil {
+				break
+			}
+			sim.Quiesce()
+			before := len(sim.Log())
+			pageBefore := m.page
+			items, cont, nextOff := coll.Harvest(call.N, off)
+			sim.Quiesce()
+			requests := len(sim.Log()) - before
+			wantTags, wantFailure := m.harvest(call.N)
+			if m.page != pageBefore && len(wantTags) > 0 {
+				crossed = true
+			}
+			what := fmt.Sprintf("walk %d, call %d: Harvest(%d, %d)", round+1, i, call.N, off)
+			gotTags := []string{}
+			failures := 0
+			for k, it := range items {
+				if tag, ok := tagOf(it); ok {
+					if failures > 0 {
+						return vrep.Result{Classes: classes, Err: fmt.Errorf("%s: item %q delivered after an error item", what, tag)}
+					}
+					gotTags = append(gotTags, tag)
+					continue
+				}
+				if _, isFailure := it.(*pub.Failure); !isFailure {
+					return vrep.Result{Classes: classes, Err: fmt.Errorf("%s: element %d is %T", what, k, it)}
+				}
+				failures++
+			}
+			if fmt.Sprint(gotTags) != fmt.Sprint(wantTags) {
+				return vrep.Result{Classes: classes, Err: fmt.Errorf("%s delivered %v, the true sequence continues with %v (failure expected: %v)", what, gotTags, wantTags, wantFailure)}
+			}
+			if (failures > 0) != wantFailure || failures > 1 {
+				msg := ""
 				if failures > 0 {
-					return vrep.Result{Classes: classes, Err: fmt.Errorf("%s: item %q delivered after an error item", what, tag)}
+					if pp, err := vorc.Parse(items[len(items)-1].Name()); err == nil {
+						msg = vorc.Plain(pp.Cells)
+					}
 				}
-				gotTags = append(gotTags, tag)
-				continue
+				return vrep.Result{Classes: classes, Err: fmt.Errorf("%s: %d error items (%s), expected failure=%v after %v", what, failures, msg, wantFailure, wantTags)}
 			}
-			if _, isFailure := it.(*pub.Failure); !isFailure {
-				return vrep.Result{Classes: classes, Err: fmt.Errorf("%s: element %d is %T", what, k, it)}
+			if uint(requests) > 4*(call.N+1)+4 {
+				return vrep.Result{Classes: classes, Err: fmt.Errorf("%s requested %d remote pages", what, requests)}
 			}
-			failures++
-		}
-		if fmt.Sprint(gotTags) != fmt.Sprint(wantTags) {
-			return vrep.Result{Classes: classes, Err: fmt.Errorf("%s delivered %v, the true sequence continues with %v (failure expected: %v)", what, gotTags, wantTags, wantFailure)}
-		}
-		if (failures > 0) != wantFailure || failures > 1 {
-			msg := ""
-			if failures > 0 {
-				if pp, err := vorc.Parse(items[len(items)-1].Name()); err == nil {
-					msg = vorc.Plain(pp.Cells)
+			// continuation
+			if m.page < 0 {
+				if cont != nil {
+					return vrep.Result{Classes: classes, Err: fmt.Errorf("%s: the sequence is over but the continuation is %T(%v), not empty", what, cont, cont)}
 				}
+				coll = nil
+			} else {
+				if cont == nil {
+					return vrep.Result{Classes: classes, Err: fmt.Errorf("%s: continuation is empty but items remain (model at page %d offset %d)", what, m.page, m.off)}
+				}
+				if nextOff != m.off {
+					return vrep.Result{Classes: classes, Err: fmt.Errorf("%s: continuation offset %d, want %d", what, nextOff, m.off)}
+				}
+				coll, off = cont, nextOff
 			}
-			return vrep.Result{Classes: classes, Err: fmt.Errorf("%s: %d error items (%s), expected failure=%v after %v", what, failures, msg, wantFailure, wantTags)}
-		}
-		if uint(requests) > 4*(call.N+1)+4 {
-			return vrep.Result{Classes: classes, Err: fmt.Errorf("%s requested %d remote pages", what, requests)}
-		}
-		// continuation
-		if m.page < 0 {
-			if cont != nil {
-				return vrep.Result{Classes: classes, Err: fmt.Errorf("%s: the sequence is over but the continuation is %T(%v), not empty", what, cont, cont)}
-			}
-			coll = nil
-		} else {
-			if cont == nil {
-				return vrep.Result{Classes: classes, Err: fmt.Errorf("%s: continuation is empty but items remain (model at page %d offset %d)", what, m.page, m.off)}
-			}
-			if nextOff != m.off {
-				return vrep.Result{Classes: classes, Err: fmt.Errorf("%s: continuation offset %d, want %d", what, nextOff, m.off)}
-			}
-			coll, off = cont, nextOff
 		}
 	}
 	if crossed {
@@ -406,9 +425,13 @@ func gen(t *rapid.T) Case {
 		if rapid.IntRange(0, 3).Draw(t, "empty?") < emptyBias {
 			n = 0
 		}
+		nulls := rapid.IntRange(0, 3).Draw(t, "nulls") == 0
 		for k := 0; k < n; k++ {
 			serial++
 			p.Items = append(p.Items, fmt.Sprintf("t%d", serial))
+			if nulls && n > 1 && rapid.IntRange(0, 2).Draw(t, "null") == 0 {
+				p.Items[k] = nullTag
+			}
 		}
 		if rapid.IntRange(0, 2).Draw(t, "hastotal") == 0 {
 			v := rapid.SampledFrom([]int{0, 1, 2, n, n + 1, 3, 50}).Draw(t, "total")
@@ -474,10 +497,15 @@ func gen(t *rapid.T) Case {
 	for i := 0; i < nc; i++ {
 		c.Calls = append(c.Calls, Call{N: uint(rapid.SampledFrom([]int{0, 1, 2, 3, 4, 5, 6, 7, 8, 9, 1, 2, 3, 5, 6, 16, 17, 20, 25, 40, 70}).Draw(t, "n"))})
 	}
+	stalls := false
+	for _, p := range c.Pages {
+		stalls = stalls || p.Edge == "broken-stall"
+	}
+	c.Again = !stalls && rapid.IntRange(0, 2).Draw(t, "again") == 0
 	return c
 }
 
-func TestProp(t *testing.T)   { vrep.Run(t, "Prop", true, gen, check) }
+func TestProp(t *testing.T) { vrep.Run(t, "Prop", true, gen, check) }
 func TestReplay(t *testing.T) {
 	switch vrep.ReplayCheckName() {
 	case "UIPaging":
